@@ -1017,6 +1017,15 @@ func compactors(c *Ctx) []*ssa.Function {
 			if fe := d.effects[ins]; fe != nil && fe.Kind == "remove" && fe.Class == "table" {
 				removes = true
 			}
+			// … or through a helper of the package
+			if ci, ok := ins.(ssa.CallInstruction); ok && !removes {
+				if p.SiteMayReach(ci, func(i ssa.Instruction) bool {
+					fe := d.effects[i]
+					return fe != nil && fe.Kind == "remove" && fe.Class == "table"
+				}) {
+					removes = true
+				}
+			}
 		})
 		if merges && removes {
 			out = append(out, f)
@@ -1079,56 +1088,95 @@ func runCmpSib(c *Ctx, r *RuleRun) {
 		return
 	}
 	mv := p.Fn("pkg/kway", "", "MergeVersions")
-	steps := func(f *ssa.Function) (string, bool) {
+	d := c.Dur()
+	build := p.Fn("table", "", "Build")
+	discard := p.FnOr("", "levelManager", "discardStaleEntries")
+	levelsF := p.Field("", "levelManager", "levels")
+	// the steps of a compaction as kinds of effects, in source order, looking through helpers of the package
+	var kindsOf func(f *ssa.Function, depth int) []string
+	kindsOf = func(f *ssa.Function, depth int) []string {
 		type st struct {
-			pos  token.Pos
-			name string
+			pos   token.Pos
+			kinds []string
 		}
 		var all []st
-		started := false
-		_ = started
 		eachInstr(f, func(ins ssa.Instruction) {
 			call, ok := ins.(*ssa.Call)
 			if !ok {
 				return
 			}
-			name := ""
-			if g := call.Call.StaticCallee(); g != nil && p.InModule(g) {
-				name = g.Name()
-			} else if obj := p.ExtCallee(call); obj != nil && obj.Pkg() != nil {
-				switch obj.Pkg().Path() {
-				case "container/list":
-					if listWriters[obj.Name()] {
-						name = "list." + obj.Name()
+			g := call.Call.StaticCallee()
+			var ks []string
+			switch {
+			case g != nil && g == mv:
+				ks = []string{"merge"}
+			case g != nil && g == discard:
+				ks = []string{"discard"}
+			case g != nil && g == build:
+				ks = []string{"build"}
+			default:
+				if fe := d.effects[ins]; fe != nil {
+					switch {
+					case fe.Kind == "remove" && fe.Class == "table":
+						ks = []string{"delete"}
+					case fe.Kind == "rename" && fe.To == "table":
+						ks = []string{"publish"}
 					}
-				case "os":
-					name = "os." + obj.Name()
+				}
+				if obj := p.ExtCallee(call); obj != nil && obj.Pkg() != nil && obj.Pkg().Path() == "container/list" && len(call.Call.Args) > 0 {
+					if u, ok := call.Call.Args[0].(*ssa.UnOp); ok {
+						if ia, ok := u.X.(*ssa.IndexAddr); ok && isLoadOfField(ia.X, levelsF) {
+							switch obj.Name() {
+							case "PushBack", "PushFront":
+								ks = []string{"insert"}
+							case "Remove":
+								ks = []string{"unlink"}
+							}
+						}
+					}
+				}
+				if ks == nil && g != nil && p.InModule(g) && g.Pkg == f.Pkg && depth < 2 {
+					ks = kindsOf(g, depth+1)
 				}
 			}
-			if name != "" {
-				all = append(all, st{instrPos(call), name})
+			if len(ks) > 0 {
+				all = append(all, st{instrPos(call), ks})
 			}
 		})
 		sort.SliceStable(all, func(i, j int) bool { return all[i].pos < all[j].pos })
 		var seq []string
+		for _, s := range all {
+			for _, k := range s.kinds {
+				if len(seq) == 0 || seq[len(seq)-1] != k {
+					seq = append(seq, k)
+				}
+			}
+		}
+		return seq
+	}
+	steps := func(f *ssa.Function) (string, bool) {
+		seq := kindsOf(f, 0)
 		from := -1
-		for i, s := range all {
-			if mv != nil && s.name == mv.Name() && from < 0 {
+		for i, k := range seq {
+			if k == "merge" && from < 0 {
 				from = i
 			}
 		}
 		if from < 0 {
 			return "", false
 		}
-		for _, s := range all[from:] {
-			if s.name == "fileName" || s.name == "maxLevelIdx" || s.name == "Elapsed" {
-				continue
+		// unlink and delete may be interleaved per level in one compaction and grouped in the other: what matters is that
+		// both come after the publish and the insert
+		var out []string
+		for _, k := range seq[from:] {
+			if k == "unlink" || k == "delete" {
+				k = "unlink/delete"
 			}
-			if len(seq) == 0 || seq[len(seq)-1] != s.name {
-				seq = append(seq, s.name)
+			if len(out) == 0 || out[len(out)-1] != k {
+				out = append(out, k)
 			}
 		}
-		return strings.Join(seq, " → "), true
+		return strings.Join(out, " → "), true
 	}
 	ref, ok := steps(cs[0])
 	if !ok {
@@ -1192,23 +1240,61 @@ func runCmpSib(c *Ctx, r *RuleRun) {
 			})
 			return found
 		}
-		eachInstr(f, func(ins ssa.Instruction) {
-			call, ok := ins.(*ssa.Call)
-			if !ok {
-				return
+		type frame struct {
+			fn   *ssa.Function
+			site *ssa.Call
+			up   *frame
+		}
+		var rootIn func(v ssa.Value, fr *frame) string
+		rootIn = func(v ssa.Value, fr *frame) string {
+			if res := rootOf(v); res != "" {
+				return res
 			}
-			if fetch != nil && callTo(p, call, fetch) != nil && len(call.Call.Args) > 2 {
-				srcFetch = append(srcFetch, rootOf(call.Call.Args[2]))
+			if fr == nil || fr.site == nil {
+				return ""
 			}
-			if obj := p.ExtCallee(call); obj != nil {
-				if funcIs(obj, "container/list", "List", "Remove") && len(call.Call.Args) > 1 {
-					srcListRm = append(srcListRm, rootOf(call.Call.Args[1]))
+			// the value comes from a parameter of the helper: continue with the argument at the call site
+			res := ""
+			p.dependsOn(v, func(x ssa.Value) bool {
+				pr, ok := x.(*ssa.Parameter)
+				if !ok || pr.Parent() != fr.fn {
+					return false
 				}
-				if funcIs(obj, "os", "", "Remove") {
-					srcFileRm = append(srcFileRm, rootOf(call.Call.Args[0]))
+				for i, q := range fr.fn.Params {
+					if q == pr && i < len(fr.site.Call.Args) {
+						res = rootIn(fr.site.Call.Args[i], fr.up)
+					}
 				}
-			}
-		})
+				return res != ""
+			})
+			return res
+		}
+		var visit func(g *ssa.Function, fr *frame, depth int)
+		visit = func(g *ssa.Function, fr *frame, depth int) {
+			eachInstr(g, func(ins ssa.Instruction) {
+				call, ok := ins.(*ssa.Call)
+				if !ok {
+					return
+				}
+				if fetch != nil && callTo(p, call, fetch) != nil && len(call.Call.Args) > 2 {
+					srcFetch = append(srcFetch, rootIn(call.Call.Args[2], fr))
+					return
+				}
+				if obj := p.ExtCallee(call); obj != nil {
+					if funcIs(obj, "container/list", "List", "Remove") && len(call.Call.Args) > 1 {
+						srcListRm = append(srcListRm, rootIn(call.Call.Args[1], fr))
+					}
+					if funcIs(obj, "os", "", "Remove") {
+						srcFileRm = append(srcFileRm, rootIn(call.Call.Args[0], fr))
+					}
+					return
+				}
+				if h := call.Call.StaticCallee(); h != nil && p.InModule(h) && h.Pkg == f.Pkg && depth < 2 && !strings.HasPrefix(h.Name(), "overlap") && h != discard {
+					visit(h, &frame{h, call, fr}, depth+1)
+				}
+			})
+		}
+		visit(f, &frame{fn: f}, 0)
 		sort.Strings(srcFetch)
 		sort.Strings(srcListRm)
 		sort.Strings(srcFileRm)
